@@ -751,8 +751,8 @@ def _reject_analysis(prog, f, pred, memo, parm_objs=None, depth=0):
         for (c, p) in ats:
             if pred(ctx, c, p) or any(pred(hc, c2, p2) for (hc, c2, p2) in _predicate_helper_atoms(prog, ctx, c, p)):
                 edge_ok[(b.id, si)] = True
-        # an equality spelled as two one-sided outcomes on the same edge:  !(rem > 0) && !(rem < 0)
-        if (b.id, si) not in edge_ok and pred is _pred_granularity:
+        # an equality spelled as two one-sided outcomes on the same edge:  !(rem > 0) && !(rem < 0),  !(nwin < ntaps) && !(ntaps < nwin)
+        if (b.id, si) not in edge_ok and pred in (_pred_granularity, _pred_window_length):
             sides = {}
             for (c, p) in ats:
                 cmp_ = as_comparison(c)
@@ -761,11 +761,14 @@ def _reject_analysis(prog, f, pred, memo, parm_objs=None, depth=0):
                 l, op, r = cmp_
                 if not p:
                     op = {"<": ">=", ">=": "<", ">": "<=", "<=": ">", "==": "!=", "!=": "=="}[op]
-                r0 = r.strip_all()
-                if r0.k == "IntegerLiteral" and r0.get("v") == "0" and op in ("<=", ">="):
-                    sides.setdefault(l.strip_all().text(), {})[op] = c
+                if op not in ("<=", ">="):
+                    continue
+                lt, rt = l.strip_all().text(), r.strip_all().text()
+                if lt > rt:          # one orientation per operand pair
+                    lt, rt, op = rt, lt, {"<=": ">=", ">=": "<="}[op]
+                sides.setdefault((lt, rt), {})[op] = c
             for txt, d in sides.items():
-                if "<=" in d and ">=" in d and _pred_granularity(ctx, d["<="], True, as_eq=True):
+                if "<=" in d and ">=" in d and pred(ctx, d["<="], True, as_eq=True):
                     edge_ok[(b.id, si)] = True
     call_pos = {}
     for n in f.walk():
@@ -894,7 +897,7 @@ def _pred_granularity(ctx, c, pol, as_eq=False):
     return False
 
 
-def _pred_window_length(ctx, c, pol):
+def _pred_window_length(ctx, c, pol, as_eq=False):
     """win.size() == f(n) holds on the surviving edge (win and n are parameters)"""
     cmp_ = as_comparison(c)
     if cmp_ is None:
@@ -902,6 +905,8 @@ def _pred_window_length(ctx, c, pol):
     l, op, r = cmp_
     if not pol:
         op = {"==": "!=", "!=": "=="}.get(op, op)
+    if as_eq:
+        op = "=="
     if op != "==":
         return False
     ol, orr = ctx.objs(l, ("size",)), ctx.objs(r, ("size", "val"))
